@@ -42,6 +42,10 @@ checks = {
  "C19": dict(engine="hdrmc", cat="model_checking", ref="DESIGN.md 3, 7 C19",
    text="in every state: locator for max 1,2,3,10,50 and the verify-only locator are checked for membership, order, start at tip-1, length, duplicates; protocol-conformant peers on every accepted tip (and 1-2 headers ahead) are simulated and their first reply header is submitted to the real repository",
    note=A_NOTE + "; synthetic split table at heights 2/3 and the real mainnet table on base chains", tech=A_TECH),
+ "C20": dict(engine="peermc", cat="model_checking", ref="DESIGN.md 6, 7 C20",
+   text="BFS over all histories of Add/UpdateScore/UpdateTime/Save/Load/Clear (2-5 addresses incl. empty, 300-byte, non-ASCII, IPv6; deltas +-1,+-5) on the real StoragePeerRepository against a map model, all 36 Get(min,max) ranges and Count compared in every state; every prefix of every saved file reached is loaded; 17 structured arbitrary file contents (bad version, negative / huge counts and lengths, duplicates, garbage) are loaded in worker subprocesses under an address-space limit",
+   note="sequential callers in this check (the concurrent part is explored separately); last-seen times are wall-clock and only checked to lie inside the call window; atomic single-key storage",
+   tech="explicit-state model checking of the implementation (BFS over operation histories, model-state de-duplication) plus exhaustive file-prefix enumeration"),
 }
 
 hook_commits = subprocess.run("git -C /repo log --format=%h --grep='verif-tagged' --grep='verif hook' -i", shell=True, capture_output=True, text=True).stdout.split()
@@ -63,6 +67,7 @@ for pid, c in checks.items():
     })
 
 kinds = {
+ "peermc": "explicit-state BFS over operation histories on the real StoragePeerRepository against a map model; file-prefix enumeration; arbitrary-content loads in limited worker subprocesses",
  "hdrmc": "explicit-state BFS over operation histories on the real headers.Repository; exact state de-duplication; reference block-tree model; crash-point enumeration",
 }
 setup = f"cd /verif && {GO} && mkdir -p .build && " + " && ".join(
